@@ -13,6 +13,7 @@ LEVEL = 'exploration'
 TECHNIQUE = 'property-based testing (Hypothesis) of the composed pipeline: generated separable reference data -> the library\'s own statistics, reference-marker and query-marker stages -> run_mapping of one centroid per leaf; oracle = identity mapping with probability 1 / correlation 1, under the stated precondition evaluated on the traced bootstrap subsets'
 RULE = ('cases = generated reference datasets with separable clusters (taxonomies of 1-3 levels, 2-7 leaves, 16-30 genes, any encoding/dtype) x query gene subset and order x bootstrap factor / iterations / seed x worker counts of every stage; '
         'non-trivial = at least one (centroid, node with >=2 children) visit satisfied the precondition on every drawn subset and was checked; distinct = distinct spec hash')
+RULE += '; additions: node names with odd characters, references of 257-300 clusters (about 1 case in 20), named obs / var indexes'
 ASSUMPTIONS = ['the centroid is computed by the harness from the raw cells (float64); correlation tolerance 1e-9 (1e-5 when the reference file is float32)',
                'node visits where another leaf is perfectly correlated on a drawn subset, or the centroid is constant on it, are skipped and counted (the precondition of the statement)']
 
